@@ -12,6 +12,9 @@ mod stream;
 mod tuple;
 mod wakers;
 
+#[cfg(feature = "fc-verif")]
+pub mod verif;
+
 #[doc(hidden)]
 pub mod private;
 
